@@ -121,8 +121,18 @@ impl Script {
         // the scripted prefix is judged by the same monitors as explored transitions
         let mut vs = mwsim::monitors::step_monitors(&SCRIPT_PROPS, &pre, &a, &ap, &self.s);
         vs.extend(mwsim::monitors::state_monitors(&SCRIPT_PROPS, &self.s));
+        for (seq, o) in &ap.acks {
+            if !o.ok {
+                vs.push(mwsim::explore::viol("C07", "outcome.callback_failed", format!("sudo for the success acknowledgement of packet {seq} failed: {:?}", o.err)));
+                if o.undecodable {
+                    for p in ["C01", "C02", "C03"] {
+                        vs.push(mwsim::explore::viol(p, "wire.callback_undecodable", format!("success acknowledgement of packet {seq}: {}", o.err.clone().unwrap_or_default())));
+                    }
+                }
+            }
+        }
         for v in vs {
-            if self.s.g.seed_viol.len() < 8 && !self.s.g.seed_viol.iter().any(|x| x.1 == v.key) {
+            if self.s.g.seed_viol.len() < 12 && !self.s.g.seed_viol.iter().any(|x| x.1 == format!("seed.{}", v.key) && x.0 == v.property) {
                 self.s.g.seed_viol.push((v.property, format!("seed.{}", v.key), format!("while building the seed, at {}: {}", act_label(&a), v.detail)));
             }
         }
@@ -299,6 +309,20 @@ pub fn seed_mixed_refundable(k: &K, base: Sim, lst_lowest: bool) -> Sim {
     s
 }
 
+/// two refundable LST deliveries to one native user (one timed out, one refused), their stake transfers
+/// acknowledged; whatever LST the base state holds for queued requests stays in the contract
+pub fn seed_two_lst_refundable(k: &K, base: Sim, to: &str) -> Sim {
+    let mut s = base;
+    for (amt, kind) in [(30u128, 2u8), (23, 1)] {
+        let ap = s.apply(&hold(stake_to(&u(1), amt, Some(to.to_string()), Some(true), None)));
+        assert!(ap.out.ok, "{:?}", ap.out.err);
+        assert!(ap.out.new_packets.len() == 2, "stake with IBC delivery sends two packets");
+        s.apply(&Act::Outcome { seq: ap.out.new_packets[0], kind: 0 });
+        s.apply(&Act::Outcome { seq: ap.out.new_packets[1], kind });
+    }
+    s
+}
+
 /// many small rewards whose fee remainders accumulate (and two fee-configuration changes on the way)
 pub fn seed_many_rewards(k: &K) -> Sim {
     let mut sc = Script::resumed(k).run(stake(&u(1), 1_000)).run(stake(&u(2), 777));
@@ -345,6 +369,50 @@ pub fn seed_four_requesters(k: &K) -> Sim {
     sc = sc.with(|s| rewards(s, 50));
     sc = sc.with(|s| unstake(s, &u(1), 10)).with(|s| unstake(s, &u(2), 7)).with(|s| unstake(s, &u(3), 1)).with(|s| unstake(s, &p20("u4"), 9));
     sc.with(|s| advance(pending_due(s))).done()
+}
+
+/// account `r<i>` of the many-requester seeds
+pub fn rq(i: u32) -> String {
+    p20(&format!("r{i}"))
+}
+
+/// batches with many requesters: a first batch of `n` requesters (distinct amounts, three of them asking
+/// twice) goes through submission, a short delivery and the withdrawal of everybody but `r1` in
+/// descending address order; a second batch of `n - 7` requesters is pending and due. `u1`..`u3` hold
+/// LST as well and are among the requesters of the second batch.
+pub fn seed_many_requesters(k: &K, n: u32) -> Sim {
+    let mut sc = Script::resumed(k);
+    for i in 1..=n {
+        sc.s.fund(&rq(i), 10_000);
+    }
+    for i in 1..=n {
+        sc = sc.run(stake(&rq(i), 1_000 + 13 * i as u128));
+    }
+    sc = sc.run(stake(&u(1), 500)).run(stake(&u(2), 300)).run(stake(&u(3), 100));
+    sc = sc.with(|s| rewards(s, 777));
+    for i in 1..=n {
+        sc = sc.with(move |s| unstake(s, &rq(i), 100 + 7 * i as u128));
+    }
+    for i in [2u32, 17, n] {
+        sc = sc.with(move |s| unstake(s, &rq(i.min(n)), 5));
+    }
+    sc = sc.with(|s| advance(pending_due(s).max(s.w.time + 1))).run(submit(&p20("x")));
+    sc = sc.with(|s| advance(s.m.batches[&1].due.max(s.w.time + 1)));
+    sc = sc.with(|s| {
+        let e = s.m.batches[&1].expected.unwrap();
+        deliver(s, 1, e - 11)
+    });
+    let mut order: Vec<String> = (2..=n).map(rq).collect();
+    order.sort();
+    order.reverse();
+    for who in order {
+        sc = sc.run(withdraw(&who, 1));
+    }
+    for i in 8..=n {
+        sc = sc.with(move |s| unstake(s, &rq(i), 30 + i as u128));
+    }
+    sc = sc.with(|s| unstake(s, &u(1), 10)).with(|s| unstake(s, &u(2), 7)).with(|s| unstake(s, &u(3), 1));
+    sc.with(|s| advance(pending_due(s).max(s.w.time + 1))).done()
 }
 
 /// block time beyond 2^32 seconds and deadlines more than 2^32 seconds apart
